@@ -57,13 +57,17 @@ struct Run
 static int g_cmp_style = 0;
 static int cmp_shape2(int x, int y);
 // left argument: an element; right argument: a probe whose single byte holds the complement of the key
+// where the one-byte key sits inside an element: byte 0, or - per history, for elements of two bytes or more - byte 1 behind a
+// byte that is mostly NUL
+static bool g_key_hi = false;
+static size_t g_key_at = 0; // set from the queue right before every call that takes the comparator
 static int cmp_elem_probe(void const *a, void const *b)
 {
-    return cmp_shape2(*(uint8_t const *)a, uint8_t(~*(uint8_t const *)b));
+    return cmp_shape2(((uint8_t const *)a)[g_key_at], uint8_t(~*(uint8_t const *)b));
 }
 static int cmp_first(void const *a, void const *b)
 {
-    return cmp_shape2(*(uint8_t const *)a, *(uint8_t const *)b);
+    return cmp_shape2(((uint8_t const *)a)[g_key_at], ((uint8_t const *)b)[g_key_at]);
 }
 static int cmp_shape2(int x, int y)
 {
@@ -83,12 +87,14 @@ static int cmp_shape2(int x, int y)
 static unsigned dtor_calls = 0;
 static void dtor_fn(void *) { ++dtor_calls; }
 
+static inline size_t kpos(Q const &q) { return (g_key_hi && q.siz >= 2) ? 1 : 0; }
 static std::vector<uint8_t> mk(Q &q, uint8_t key)
 {
     std::vector<uint8_t> e(q.siz);
     unsigned s = q.serial++;
-    e[0] = key;
-    for (size_t j = 1; j < q.siz; ++j) { e[j] = uint8_t(s * 7 + j * 13 + 1); }
+    for (size_t j = 0; j < q.siz; ++j) { e[j] = uint8_t(s * 7 + j * 13 + 1); }
+    if (kpos(q)) { e[0] = (s % 4 == 3) ? uint8_t(s * 7 + 1) : uint8_t(0); }
+    e[kpos(q)] = key;
     return e;
 }
 
@@ -194,7 +200,7 @@ static void op_push(Run &r, Q &q, Tape &t, int kind, int sort_after)
         // sorted variants are only meaningful on a sorted sequence
         for (size_t i = 1; i < q.m.size(); ++i)
         {
-            if (q.m[i - 1].bytes[0] > q.m[i].bytes[0])
+            if (q.m[i - 1].bytes[kpos(q)] > q.m[i].bytes[kpos(q)])
             {
                 ++r.cx.rep->excluded;
                 kind = kind == 3 ? 0 : kind;
@@ -217,6 +223,7 @@ static void op_push(Run &r, Q &q, Tape &t, int kind, int sort_after)
         default: {
             // key "on the right": half of the time a probe object of another layout (complemented byte)
             uint8_t probe = uint8_t(~key);
+            g_key_at = kpos(q);
             p = (r.opno & 1) ? a_que_push_sort(q.q, &probe, cmp_elem_probe) : a_que_push_sort(q.q, e.data(), cmp_first);
             break; }
         }
@@ -246,7 +253,7 @@ static void op_push(Run &r, Q &q, Tape &t, int kind, int sort_after)
             for (a_list const *it = h->next; it != h && (void *)(it + 1) != p && pos <= oldn; it = it->next) { ++pos; }
             VP_CHECK(r.cx, pos <= oldn, "que:push_sort_not_linked", "push_sort returned a slot that is not linked into the queue");
             q.m.insert(q.m.begin() + long(pos), el);
-            for (size_t i = 1; i < q.m.size(); ++i) { VP_CHECK(r.cx, q.m[i - 1].bytes[0] <= q.m[i].bytes[0], "que:push_sort_not_sorted", "push_sort(key %u) placed the element at %zu: sequence no longer sorted", key, pos); }
+            for (size_t i = 1; i < q.m.size(); ++i) { VP_CHECK(r.cx, q.m[i - 1].bytes[kpos(q)] <= q.m[i].bytes[kpos(q)], "que:push_sort_not_sorted", "push_sort(key %u) placed the element at %zu: sequence no longer sorted", key, pos); }
             r.cx.label(L_PUSH_SORT);
         }
         note_push(r);
@@ -258,12 +265,14 @@ static void op_push(Run &r, Q &q, Tape &t, int kind, int sort_after)
         Elem moved = kind == 1 ? q.m.front() : q.m.back();
         if (kind == 1)
         {
+            g_key_at = kpos(q);
             a_que_sort_fore(q.q, cmp_first);
             q.m.pop_front();
             r.cx.label(L_SORT_FORE);
         }
         else
         {
+            g_key_at = kpos(q);
             a_que_sort_back(q.q, cmp_first);
             q.m.pop_back();
             r.cx.label(L_SORT_BACK);
@@ -276,7 +285,7 @@ static void op_push(Run &r, Q &q, Tape &t, int kind, int sort_after)
         for (a_list const *it = h->next; it != h && (void *)(it + 1) != moved.addr && pos <= n; it = it->next) { ++pos; }
         VP_CHECK(r.cx, pos < n, "que:sort_lost_element", "sort_fore/back: the pushed element is no longer in the ring");
         q.m.insert(q.m.begin() + long(pos), moved);
-        for (size_t i = 1; i < q.m.size(); ++i) { VP_CHECK(r.cx, q.m[i - 1].bytes[0] <= q.m[i].bytes[0], "que:sort_not_sorted", "sort_fore/back left the sequence unsorted at %zu", i); }
+        for (size_t i = 1; i < q.m.size(); ++i) { VP_CHECK(r.cx, q.m[i - 1].bytes[kpos(q)] <= q.m[i].bytes[kpos(q)], "que:sort_not_sorted", "sort_fore/back left the sequence unsorted at %zu", i); }
         verify(r, q, "sort_fore/back");
     }
 }
@@ -377,6 +386,7 @@ static void make_q(Run &r, Q &q, Tape &t)
     uint8_t sb = t.u8();
     size_t siz = sizes[sb % 8];
     g_cmp_style = (sb >> 3) & 7; // upper bits of the same byte; the second queue's byte decides for the history
+    g_key_hi = ((sb >> 6) & 1) != 0;
     r.cx.hash.add(uint64_t(g_cmp_style) << 8);
     q.heap = t.coin();
     q.siz = siz ? siz : 1;
